@@ -228,10 +228,23 @@ def uses_overloads(scope):
     return any((e["k"] == "func" and e["f"]["novl"]) or (e["k"] == "class" and uses_overloads(e["scope"] or [])) for _, e in scope)
 
 
-def gen_pair(rng):
-    rt, st = gen_scope_pair(rng, 0, False)
-    py = render_module(rt, "R", rng.random() < 0.5, uses_overloads(rt) or rng.random() < 0.1)
-    pyi = render_module(st, "S", rng.random() < 0.5, uses_overloads(st) or rng.random() < 0.1)
+SAFE_ANNS = ["int", "str", "float", "bytes", "list[int]", "dict[str, int]", "int | None"]    # evaluable by CPython at import time
+
+
+def gen_pair(rng, anns=None, aliases=True):
+    """anns: annotation pool (SAFE_ANNS when the runtime file is going to be imported by CPython)."""
+    global ANNS, RT_KINDS
+    old = ANNS, RT_KINDS
+    if anns is not None:
+        ANNS = anns
+    if not aliases:
+        RT_KINDS = [k for k in RT_KINDS if k != "alias"]
+    try:
+        rt, st = gen_scope_pair(rng, 0, False)
+        py = render_module(rt, "R", rng.random() < 0.5, uses_overloads(rt) or rng.random() < 0.1)
+        pyi = render_module(st, "S", rng.random() < 0.5, uses_overloads(st) or rng.random() < 0.1)
+    finally:
+        ANNS, RT_KINDS = old
     return py, pyi
 
 
@@ -415,6 +428,52 @@ def run_load(search: Path, name: str, member, reverse=False, **kw):
     return ["ok", [obj.filepath.suffix == ".pyi", norm_result(abstract(obj))]], unresolved_ok(top), top
 
 
+def tree_consistency(obj, path, parent, collection, out=None, depth=0):
+    """The merged tree is one tree: every member's parent is its container, paths follow the containment, and
+    everything hangs off the same modules collection - whichever file was attached first."""
+    out = [] if out is None else out
+    if len(out) > 8:
+        return out
+    if obj.parent is not parent:
+        out.append(f"{path}: parent is {getattr(obj.parent, 'path', None)!r}, container is {getattr(parent, 'path', None)!r}")
+    if obj.path != path:
+        out.append(f"{path}: path is {obj.path!r}")
+    if collection is not None:
+        try:
+            if obj.modules_collection is not collection:
+                out.append(f"{path}: modules_collection is another collection")
+        except Exception as e:  # noqa: BLE001
+            out.append(f"{path}: modules_collection raises {type(e).__name__}")
+    if not obj.is_alias:
+        for n, m in obj.members.items():
+            if m.name != n:
+                out.append(f"{path}.{n}: name is {m.name!r}")
+            tree_consistency(m, f"{path}.{n}", obj, collection, out, depth + 1)
+    return out
+
+
+def run_producer(d: Path, py: str, pyi: str, stubs_first: bool):
+    """Producer API: modules visited WITHOUT parent= and attached with set_member, in either order."""
+    import griffe
+    write(d / "pkg" / "__init__.py", "")
+    write(d / "pkg" / "m.py", py)
+    write(d / "pkg" / "m.pyi", pyi)
+    collection, lines = griffe.ModulesCollection(), griffe.LinesCollection()
+
+    def visit(name, fn):
+        return griffe.visit(name, filepath=d / "pkg" / fn, code=(d / "pkg" / fn).read_text(), modules_collection=collection, lines_collection=lines)
+    try:
+        pkg = visit("pkg", "__init__.py")
+        collection.set_member("pkg", pkg)
+        for fn in (("m.pyi", "m.py") if stubs_first else ("m.py", "m.pyi")):
+            pkg.set_member("m", visit("m", fn))
+        m = pkg.members["m"]
+        res = ["ok", [m.filepath.suffix == ".pyi", norm_result(abstract(m))]]
+    except Exception as e:  # noqa: BLE001
+        return _err(e), [], []
+    return res, unresolved_ok(pkg), tree_consistency(pkg, "pkg", None, collection)
+
+
 # ----------------------------------------------------------------------------------------------------------------------
 # the property, read declaratively over abstracted trees (no model, no fold): what the merged scope must be
 # ----------------------------------------------------------------------------------------------------------------------
@@ -560,8 +619,13 @@ def _run_case(ctx, d, case, py, pyi, stream, use_model, idx):
     write(d / "B" / "pkg" / "__init__.py", "")
     write(d / "B" / "pkg" / "m.py", py)
     write(d / "B" / "pkg" / "m.pyi", pyi)
-    impl["inpkg(py first)"], unresolved["inpkg(py first)"], _ = run_load(d / "B", "pkg", "m", reverse=False)
-    impl["inpkg(pyi first)"], unresolved["inpkg(pyi first)"], _ = run_load(d / "B", "pkg", "m", reverse=True)
+    structure = {}
+    impl["inpkg(py first)"], unresolved["inpkg(py first)"], top = run_load(d / "B", "pkg", "m", reverse=False)
+    structure["inpkg(py first)"] = tree_consistency(top, "pkg", None, top.modules_collection) if top is not None else []
+    impl["inpkg(pyi first)"], unresolved["inpkg(pyi first)"], top = run_load(d / "B", "pkg", "m", reverse=True)
+    structure["inpkg(pyi first)"] = tree_consistency(top, "pkg", None, top.modules_collection) if top is not None else []
+    impl["producer(py first)"], unresolved["producer(py first)"], structure["producer(py first)"] = run_producer(d / "P1", py, pyi, False)
+    impl["producer(pyi first)"], unresolved["producer(pyi first)"], structure["producer(pyi first)"] = run_producer(d / "P2", py, pyi, True)
     if idx % 2:
         write(d / "A" / "m.py", py)
         write(d / "A" / "m.pyi", pyi)
@@ -582,6 +646,10 @@ def _run_case(ctx, d, case, py, pyi, stream, use_model, idx):
     if extra_rt:
         write(d / "C" / "pkgc" / "ronly.py", "def r(): ...\n")
     impl["stubs-package"], unresolved["stubs-package"], topc = run_load(d / "C", "pkgc", None, find_stubs_package=True)
+    structure["stubs-package"] = tree_consistency(topc, "pkgc", None, topc.modules_collection) if topc is not None else []
+    for k, probs in structure.items():
+        if probs:
+            ctx.property_failure({**case, "placement": k}, {"merged_tree_is_not_one_tree": probs[:8]})
 
     for k, v in impl.items():
         ctx.observe("outcome:" + k.split("(")[0], v[0] if v[0] == "ok" else v[1])
@@ -621,7 +689,7 @@ def _run_case(ctx, d, case, py, pyi, stream, use_model, idx):
             tree = mm["m"]
         placements_m[k] = tree
         if is_pyi:
-            known = f1_top and k == "inpkg(py first)"
+            known = f1_top and k in ("inpkg(py first)", "producer(py first)")
             ctx.property_failure({**case, "placement": k}, {"result_is": "the stubs module (.pyi filepath)", "expected": "the runtime module"},
                                  finding="C19-F1" if known else None)
             continue
@@ -668,6 +736,8 @@ def _run_case(ctx, d, case, py, pyi, stream, use_model, idx):
         "direct(pyi,py)": ["merge_stubs", fpyi, fpy],
         "inpkg(py first)": ["set_member", fpy, fpyi],
         "inpkg(pyi first)": ["set_member", fpyi, fpy],
+        "producer(py first)": ["set_member", fpy, fpyi],
+        "producer(pyi first)": ["set_member", fpyi, fpy],
         "toplevel": ["load_package", t_py, t_pyi, []],
         "stubs-package": ["load_package", top_c, stub_init_c, sorted(subs_c)],   # os.walk order within pkgc-stubs: m.pyi, sonly.pyi
         "gaps": ["gaps", t_pyi, t_py],
@@ -710,12 +780,13 @@ def compare_with_model(ctx, batch):
     if len(XCHECK) < 40:
         for b in batch[:18]:
             XCHECK.extend([b[2]["merge"], b[2]["inpkg(py first)"], b[2]["stubs-package"], b[2]["gaps"]][:2 if len(XCHECK) > 24 else 4])
-    keys = ["direct(py,pyi)", "direct(pyi,py)", "inpkg(py first)", "inpkg(pyi first)", "toplevel", "stubs-package", "gaps", "merge"]
+    keys = ["direct(py,pyi)", "direct(pyi,py)", "inpkg(py first)", "inpkg(pyi first)", "producer(py first)", "producer(pyi first)",
+            "toplevel", "stubs-package", "gaps", "merge"]
     flat = [b[2][k] for b in batch for k in keys]
     outs = ctx.model(flat)
     for i, (case, impl, queries, (f1p, f2p), expected) in enumerate(batch):
         res = dict(zip(keys, outs[i * len(keys):(i + 1) * len(keys)]))
-        for k in keys[:6]:
+        for k in keys[:8]:
             m = norm_model(res[k])
             got = impl[k]
             if k in ("toplevel", "stubs-package") and got[0] == "ok":
